@@ -132,8 +132,20 @@ def rule_pandas(ctx):
 
     hooks = []
 
+    class ScanHooks(ExecHooks):
+        """also remembers what the local named in `SELECT * FROM <name>` is bound to when the INSERT runs (DuckDB's replacement
+        scan reads that local of the calling frame)"""
+
+        def engine(self, I, obj, method, args, kwargs, site):
+            if method == "execute" and args and I.envstack:
+                t_ = args[0].text() if isinstance(args[0], Str) else tagof(args[0])
+                mt_ = re.search(r"SELECT\s+\*\s+FROM\s+([A-Za-z_]\w*)\s*$", t_.strip(), re.I)
+                if mt_ and not hasattr(self, "scanned"):
+                    self.scanned = I.envstack[-1].lookup(mt_.group(1))
+            return super().engine(I, obj, method, args, kwargs, site)
+
     def fac():
-        h = ExecHooks(None)
+        h = ScanHooks(None)
         hooks.append(h)
         return h
 
@@ -149,6 +161,19 @@ def rule_pandas(ctx):
         n += 1
         sql = h.calls[0][0]
         txt = sql.text() if isinstance(sql, Str) else tagof(sql)
+        # the column list names the columns of the very frame the SELECT * reads, in that frame's order
+        from .c05 import _prov_nodes
+        col_sources = [x.origin[1] for x in _prov_nodes(sql) if isinstance(x, Sym) and x.origin and x.origin[0] == "attr" and len(x.origin) == 3
+                       and x.origin[2] == "columns"]
+        scanned = getattr(h, "scanned", None)
+        if col_sources and scanned is not None:
+            ok_f = all(cs is scanned or tagof(cs) == tagof(scanned) for cs in col_sources)
+            ctx.ob("C01.c", "the INSERT's column list is read off the frame that `SELECT *` scans", ok_f, m.loc(fn),
+                   "" if ok_f else f"columns of `{tagof(col_sources[0])[:50]}`, rows of `{tagof(scanned)[:50]}`")
+            if not ok_f:
+                ctx.violation("C01.c", "pandas_tools", helper, "column list and SELECT * read different frames", m.loc(fn),
+                              f"the INSERT lists the columns of `{tagof(col_sources[0])[:60]}` but `SELECT *` reads `{tagof(scanned)[:60]}`, a frame "
+                              f"derived later: when the two differ in column order the values land in the wrong columns")
         ok_t = isinstance(sql, Str) and txt.upper().startswith("INSERT INTO {TABLE_NAME}") and "SELECT * FROM DF" in txt.upper()
         # the column list is a join of '"' + col + '"'
         joins = [x for x in sql.parts if isinstance(x, Sym) and x.origin and x.origin[0] == "join"] if isinstance(sql, Str) else []
@@ -270,6 +295,39 @@ def rule_pandas_target(ctx):
                               f"write_pandas builds the target `{txt[:60]}`; with these arguments the rows belong in `{want}` — they are written to "
                               f"another table (or the statement fails)")
             break
+
+
+def rule_pandas_create_target(ctx):
+    """C01.c6 / C03.f: with auto_create_table the table write_pandas creates is the table it loads: the CREATE names the same
+    database / schema / table as the INSERT."""
+    from .c19 import write_pandas_statements
+
+    prog = ctx.prog
+    m = prog.mod("pandas_tools")
+    fn = prog.fn("pandas_tools", "write_pandas")
+    n = 0
+    for with_db, with_schema in ((True, True), (False, True), (False, False)):
+        kw = {"auto_create_table": Const(True)}
+        if with_db:
+            kw["database"] = Sym("DATABASE", typ="str", truthy=True)
+        if with_schema:
+            kw["schema"] = Sym("SCHEMA", typ="str", truthy=True)
+        want = ("{DATABASE}." if with_db else "") + ("{SCHEMA}." if with_schema else "") + "{TABLE_NAME}"
+        seen = set()
+        for texts in write_pandas_statements(prog, **kw):
+            for txt in texts:
+                mt = re.match(r"CREATE\s+(?:OR\s+REPLACE\s+)?(?:TEMP(?:ORARY)?\s+)?TABLE\s+(?:IF\s+NOT\s+EXISTS\s+)?(\S+?)\s*\(", txt, re.I)
+                if not mt or txt in seen:
+                    continue
+                seen.add(txt)
+                n += 1
+                ok = mt.group(1) == want
+                ctx.ob("C01.c6", f"write_pandas(auto_create_table, database={with_db}, schema={with_schema}) creates {want}", ok, m.loc(fn), mt.group(1))
+                if not ok:
+                    ctx.violation("C01.c6", "pandas_tools", "write_pandas", f"auto-created table for database={with_db} schema={with_schema}", m.loc(fn),
+                                  f"write_pandas creates `{mt.group(1)}` but loads `{want}`: with a schema / database argument that differs from the "
+                                  f"session's the table is created in the current schema and the rows go elsewhere (or the load fails)")
+    ctx.floor("C01.c6 auto-create statements", n, 3)
 
 
 class FrameHooks(ExecHooks):
@@ -433,6 +491,7 @@ def rule_clone(ctx):
 from .c08 import rule_client_side, rule_server_side  # noqa: E402  (bound parameters are one of C01's ingestion paths)
 
 RULES = [
+    ("C01.c6", rule_pandas_create_target, ("quick", "thorough")),
     ("C01.g", rule_clone, ("quick", "thorough")),
     ("C01.e", rule_client_side, ("quick", "thorough")),
     ("C01.f", rule_server_side, ("quick", "thorough")),
